@@ -450,14 +450,14 @@ class BlochSphereRotation(Gate):
         if not isinstance(other, BlochSphereRotation):
             return False
 
-        if self.qubit != other.qubit:
-            return False
-
         same_phase = abs(self.phase - other.phase) <= ATOL
 
         if abs(self.angle) < ATOL and abs(other.angle) < ATOL:
-            # Both are the identity rotation, whatever their axes.
+            # Both are the identity rotation, whatever their axes and whichever qubit they are written on.
             return same_phase
+
+        if self.qubit != other.qubit:
+            return False
 
         if np.allclose(self.axis, other.axis):
             return same_phase and abs(self.angle - other.angle) < ATOL
